@@ -4,16 +4,24 @@ from tools.harness import common
 from tools.harness.common import DIALECTS
 
 ID = 'C03'
-TARGETS = ['MindsVerif.Props.C03']
+TARGETS = ['MindsVerif.Props.C03', 'MindsVerif.Props.C03B']
 THEOREMS = ['MindsVerif.Props.C03.' + n for n in (
     'C03_sqlite', 'C03_mysql', 'C03_mindsdb', 'C03_generic', 'phi3a_sqlite', 'phi3a_mysql', 'phi3a_mindsdb',
     'phi3b_sqlite', 'phi3b_mysql', 'phi3b_mindsdb', 'ops_present',
-    'roundtrip_sqlite', 'roundtrip_mysql', 'roundtrip_mindsdb')]
+    'roundtrip_sqlite', 'roundtrip_mysql', 'roundtrip_mindsdb')] + ['MindsVerif.Props.C03B.' + n for n in (
+    # Level B: simulation of OPM by the real LR driver over the real tables (certificate checked by the kernel)
+    'C03B_generic', 'C03B_canon_generic', 'C03B_sqlite', 'C03B_mysql', 'C03B_mindsdb',
+    'C03B_canon_sqlite', 'C03B_canon_mysql', 'C03B_canon_mindsdb',
+    'C03B_select_sqlite', 'C03B_select_mysql', 'C03B_select_mindsdb',
+    'phi3a_B_sqlite', 'phi3a_B_mysql', 'phi3a_B_mindsdb')] + [
+    'MindsVerif.Gen.ExprSim_%s.cert_ok' % d for d in ('sqlite', 'mysql', 'mindsdb')]
 ASSUME = [
     'reference grouping = the stratified SQL grammar written out in OPM.addParens (DESIGN.md §C03); validated against sqlite3 by evaluation in this run',
     'OPM.parse models the grouping of an LALR parser whose decisions are SLY resolve; tied to the real tables by the kernel-checked '
     'conformance obligation phi3b (every expr state x every fragment operator) and to the real parser by the expression stream (6 contexts)',
-    'the simulation proof between OPM.parse and LR.parse over the tables (Level B) is not done: goto structure is covered by correspondence',
+    'Level B (Props/C03B.lean): the simulation between the OPM and the LR driver over the real tables is proved for atoms = ID tokens, '
+    'parentheses, binary and prefix operators, BETWEEN and the two-token NOT IN, from every statement / parenthesis context listed in '
+    'Gen/ExprSim_<d>.lean; operands other than identifiers (constants, functions, CASE) stay covered by the correspondence stream only',
 ]
 
 LEX = {'OR': 'OR', 'AND': 'AND', 'EQUALS': '=', 'NEQUALS': '<>', 'LESS': '<', 'LEQ': '<=', 'GREATER': '>', 'GEQ': '>=',
